@@ -993,8 +993,18 @@ class ServerProp:
                 inflight += 1 if s[0] == "send" else -1
                 overlap = max(overlap, inflight)
         out.traces += len(results)
+        variants, large = {}, 0
+        for k, sched, o, probe, alive in results:
+            for r, rec in o.items():
+                if "variant" in rec:
+                    variants[str(rec["variant"])] = variants.get(str(rec["variant"]), 0) + 1
+                if rec.get("large"):
+                    large += 1
         out.coverage.update({"schedules_replayed": len(results), "schedules_emitted_by_model": len(scheds),
-                             "exchanges": kinds, "max_requests_in_flight": overlap, "formulas": C18_INVS})
+                             "exchanges": kinds, "max_requests_in_flight": overlap, "formulas": C18_INVS,
+                             "invalid_body_variants_sent": variants, "large_valid_requests": large})
+        if only is None and (len(variants) < 6 or large == 0):
+            raise ToolError("vacuous C18 corpus: invalid-body variants sent %s, large valid requests %d" % (variants, large))
         need = ["health:200", "valid:200", "malformed:400", "invalid:closed"]
         missing = [x for x in need if not kinds.get(x)]
         if missing and only is None:
